@@ -624,10 +624,8 @@ class UrwidImageScreen(urwid.raw_display.Screen):
         screen_canv = self._ti_screen_canv
 
         if not isinstance(screen_canv, urwid.CompositeCanvas):
-            if self._ti_image_cviews:
-                self.clear_images()
-                self._ti_image_cviews = frozenset()
-            return
+            # e.g the topmost widget is an image widget or a `SolidFill`
+            screen_canv = urwid.CompositeCanvas(screen_canv)
 
         def process_shard_tails():
             nonlocal col
